@@ -34,7 +34,13 @@ pub fn expand(assert: &AssertStruct) -> TokenStream {
         })
         .collect();
 
-    let assertion = expand_pattern_assertion(&quote! { #value }, pattern);
+    // A root `_` asserts nothing, but the expression it is applied to is still evaluated
+    // (once, borrowed), like the asserted expression of every other pattern.
+    let assertion = if let Pattern::Wildcard(_) = pattern {
+        quote! { let _ = &(#value); }
+    } else {
+        expand_pattern_assertion(&quote! { #value }, pattern)
+    };
 
     // Wrap in a block to avoid variable name conflicts
     quote! {
